@@ -5,10 +5,10 @@ from checks import _numtostr as N
 
 META = {
     "property_id": "C11",
-    "technique": "round trip executed on the real code (NumberToString(17|9) then StringToNumber, bits in = bits out) over boundary sets and uniform bit patterns, all 2^32 floats in the thorough tier; the formatter half is cross-checked against the Lean model and an exact-rational reference reading (IEEE 754 round-half-even of the decimal value); Lean theorems only for the decomposition and the zero class",
+    "technique": "round trip executed on the real code (NumberToString(17|9) then StringToNumber, bits in = bits out) over boundary sets and uniform bit patterns, all 2^32 floats in the thorough tier; the formatter half is cross-checked against the Lean model and an exact-rational reference reading (IEEE 754 round-half-even of the decimal value); Lean theorems: the formatter half in full (17/9-digit text = reference text for every bit pattern; 17/9 correctly rounded digits identify the value), the decomposition, integers below 2^53 through the real parser model; the parser half is tested",
     "level": "exploration",
     "design_ref": "DESIGN.md §6 C11, notes/design-numtostr.md",
-    "text": "NOT a proof of the property. RoundTrip17/RoundTrip9 are stated in Lean over an abstract parser and reduced (kernel-checked) to a formatter half (the 17-digit text, read exactly and rounded to nearest-even, is the original bits) and a parser half; proved: the zero class of the formatter half, and for every integer of magnitude below 2^53 that the 17-digit text is exactly its decimal numeral and reads back as exactly the decoded value (roundtrip_small_int); plus kernel-evaluated boundary instances labelled as tests. The verdict of a run rests on executing the round trip on the real code: quick = boundary sets (powers of two and ten +-2 ulp, every binade, subnormals, short mantissas, short decimals) and 200k uniform doubles under ASan/UBSan plus 3.2M uniform doubles and 16M floats unsanitized; thorough = 24M doubles and all 2^32 float bit patterns (exhaustive, unsanitized -O2 build).",
+    "text": "The FORMATTER HALF is proved (kernel-checked): for every finite double (float) the model of NumberToString with 17 (9) significant digits raises no fault and prints exactly the reference %.17g (%.9g) text (format17_is_reference, from C10's format_eq_spec), and that text, read exactly and rounded to nearest-even, is the original bit pattern (spec_identifies17 / spec_identifies9: 2^53 < 10^16, 2^24 < 10^8; identifies17 / identifies9). Hence RoundTrip17/9 hold for ANY parser that rounds correctly on these numerals (roundtrip17_of_parser). NOT proved: that Digit::StringToNumber does (ParsesExactly17/9, StrToNum area) - except for integers of magnitude below 2^53, where the real parser model returns exactly the integer (roundtrip17_integers_parser). For the parser half the verdict of a run rests on executing the round trip on the real code: quick = boundary sets (powers of two and ten +-2 ulp, every binade, subnormals, short mantissas, short decimals) and 200k uniform doubles under ASan/UBSan plus 3.2M uniform doubles and 16M floats unsanitized; thorough = 24M doubles and all 2^32 float bit patterns (exhaustive, unsanitized -O2 build).",
     "note": "Testing, not proof, for everything except the listed theorems. Trusted: the harness, g++/libc for nothing but memcpy of bits; the Lean reference reading (FmtSpec.readBits) is used only to attribute a failure to the formatter or the parser half. The exhaustive float sweep runs on a non-sanitized -O2 build of the same headers.",
 }
 
@@ -18,12 +18,25 @@ THEOREMS = [
     "Qentem.Props.C11.identifies17_zero",
     "Qentem.Props.C11.identifies9_zero",
     "Qentem.Props.C11.roundtrip_small_int",
+    "Qentem.Props.C11.roundtrip17_integers_parser",
+    "Qentem.Props.C11.roundtrip17_of_gap",
+    "Qentem.Props.C11.format17_is_reference",
+    "Qentem.Props.C11.format9_is_reference",
+    "Qentem.Props.C11.identifies17_of_spec",
+    "Qentem.Props.C11.identifies9_of_spec",
+    "Qentem.Props.C11.roundtrip17_reduced",
+    "Qentem.Props.C11.roundtrip9_reduced",
+    "Qentem.Props.C11.spec_identifies17",
+    "Qentem.Props.C11.spec_identifies9",
+    "Qentem.Props.C11.identifies17",
+    "Qentem.Props.C11.identifies9",
+    "Qentem.Props.C11.roundtrip17_of_parser",
+    "Qentem.Props.C11.roundtrip9_of_parser",
     "Qentem.Props.C11.identifies_boundary_instances",
 ]
 OPEN = [
-    "Qentem.Props.C11.RoundTrip17 / RoundTrip9 (for the real parser): open",
-    "Qentem.Props.C11.Identifies17 / Identifies9 (formatter half for every finite value): open; proved for zeros and (as exact value equality) for integers below 2^53",
-    "Qentem.Props.C11.ParsesExactly17 / ParsesExactly9 (parser half, belongs to the StrToNum area): open",
+    "Qentem.Props.C11.RoundTrip17 / RoundTrip9 (for the real parser): open; the formatter half is proved (identifies17 / identifies9), so only the parser half below is missing (roundtrip17_of_parser / roundtrip9_of_parser)",
+    "Qentem.Props.C11.ParsesExactly17 / ParsesExactly9 (equivalently ParsesReference17/9; parser half, belongs to the StrToNum area): open; C09 proves exact reading for the integer shape only (used in roundtrip17_integers_parser)",
 ]
 
 
@@ -137,7 +150,7 @@ def run(ctx):
               tested["--rt-floats"], tested["--rt-floats"])
     ctx.cov["value_distribution"] = dist
     ctx.assumptions += ["a parsed Natural/Integer result is converted to double as the library's Value/JSON layers do; a float is obtained by (float)double"]
-    ctx.notes += ["level: exploration - the round trip itself is tested, not proved; theorems cover the decomposition and the zero class only"]
+    ctx.notes += ["level: exploration - the round trip itself is tested, not proved; formatter half proved (identifies17/9); the parser half (StringToNumber rounds correctly on %.17g numerals) is tested, not proved"]
 
 
 FINISH = dict(level="exploration",
